@@ -724,6 +724,16 @@ func (c *c18Checker) input(s c18Scenario) map[string]any {
 	b, _ := json.Marshal(s)
 	var m map[string]any
 	json.Unmarshal(b, &m)
+	// the exact bytes of the file(s), readable (the JSON "content" fields are base64)
+	q := []string{}
+	for _, f := range s.all() {
+		c := f.Content
+		if len(c) > 300 {
+			c = c[:300]
+		}
+		q = append(q, fmt.Sprintf("%s = %q", f.Name, c))
+	}
+	m["file_bytes"] = q
 	return m
 }
 
@@ -1118,7 +1128,8 @@ func (c *c18Checker) checkMulti(s c18Scenario, run *c18Run) {
 }
 
 // c18MultiFile makes the file at position pos of a multi-file invocation: kind F (formatted),
-// U (unformatted), X (unparsable), T (txtar with an unformatted member); contents differ per position.
+// U (unformatted), X (unparsable), C (formatted except for CRLF line endings), T (txtar with an
+// unformatted member); contents differ per position.
 func c18MultiFile(kind byte, pos int) c18File {
 	modes := []uint32{0o644, 0o600, 0o755, 0o664}
 	f := c18File{Name: fmt.Sprintf("f%d.evy", pos), Mode: modes[pos%len(modes)]}
@@ -1129,6 +1140,8 @@ func c18MultiFile(kind byte, pos int) c18File {
 		f.Label, f.Content = "Unformatted", []byte(fmt.Sprintf("v%d:=%d\nprint   v%d\n", pos, pos+1, pos))
 	case 'X':
 		f.Label, f.Content = "Xunparsable", []byte(fmt.Sprintf("v%d := \nprint )\n", pos))
+	case 'C':
+		f.Label, f.Content = "Crlf-formatted", []byte(fmt.Sprintf("v%d := %d\r\nprint v%d\r\n", pos, pos+1, pos))
 	default:
 		f.Name = fmt.Sprintf("f%d.txtar", pos)
 		f.Label, f.Content = "Txtar-unformatted", []byte(fmt.Sprintf("-- a.evy --\nw%d:=1\n-- b.txt --\nkeep  \n", pos))
@@ -1199,7 +1212,7 @@ func (c *c18Checker) checkStdin(env *c18Env, cmdName string, input []byte, label
 	r := c.r
 	r.Count("stdin|"+cmdName+"|"+label+"|"+string(input), true)
 	r.Dist("stdin:" + cmdName)
-	in := map[string]any{"mode": "stdin", "cmd": cmdName, "stdin": string(input)}
+	in := map[string]any{"mode": "stdin", "cmd": cmdName, "stdin": string(input), "stdin_bytes": fmt.Sprintf("%q", input), "label": label}
 	impl := map[string]any{"exit": exit, "stdout": stdout.String(), "stderr": strings.TrimSpace(stderr.String())}
 	want := 1
 	switch {
@@ -1333,6 +1346,34 @@ func c18FixedFiles() []c18File {
 		{Label: "txtar-formatted", Name: "f.txtar", Content: txt("-- one.evy --\nprint 1\n"), Mode: 0o600},
 		{Label: "no-trailing-newline", Name: "n.evy", Content: txt("print 1"), Mode: 0o644},
 		{Label: "comment-only", Name: "k.evy", Content: txt("// only a comment\n\n\n"), Mode: 0o644},
+	}
+}
+
+// c18ByteVariants: byte-level variants of source files. The formatter is a function of the BYTES of
+// the file: whether such a file parses, and what its formatted text is, is asked of the library
+// (parser.Parse on exactly these bytes), never assumed here.
+func c18ByteVariants() []c18File {
+	const f = "x := 1\nprint x \"a\"\n" // formatted
+	const u = "x:=1\nprint   x \"a\"\n" // unformatted
+	mk := func(label, name, content string, mode uint32) c18File {
+		return c18File{Label: "bytes-" + label, Name: name, Content: []byte(content), Mode: mode}
+	}
+	return []c18File{
+		mk("crlf-all-lines", "v1.evy", strings.ReplaceAll(f, "\n", "\r\n"), 0o644),
+		mk("crlf-first-line", "v2.evy", strings.Replace(f, "\n", "\r\n", 1), 0o644),
+		mk("crlf-last-line", "v3.evy", strings.TrimSuffix(f, "\n")+"\r\n", 0o664),
+		mk("crlf-unformatted", "v4.evy", strings.ReplaceAll(u, "\n", "\r\n"), 0o644),
+		mk("lone-cr", "v5.evy", "x := 1\rprint x\n", 0o644),
+		mk("cr-in-string", "v6.evy", "print \"a\rb\"\n", 0o644),
+		mk("trailing-nul", "v7.evy", f+"\x00", 0o600),
+		mk("utf8-bom", "v8.evy", "\xef\xbb\xbf"+f, 0o644),
+		mk("no-final-newline-unformatted", "v9.evy", strings.TrimSuffix(u, "\n"), 0o644),
+		mk("only-whitespace", "v10.evy", "  \n\t\n   ", 0o644),
+		mk("only-newlines", "v11.evy", "\n\n\n", 0o755),
+		mk("one-space", "v12.evy", " ", 0o644),
+		mk("txtar-crlf-member", "v13.txtar", "-- a.evy --\n"+strings.ReplaceAll(f, "\n", "\r\n")+"-- b.evy --\nprint 2\n", 0o644),
+		mk("txtar-nul-member", "v14.txtar", "-- a.evy --\nprint 1\n\x00-- b.evy --\nprint   2\n", 0o644),
+		mk("invalid-utf8", "v15.evy", "print \"\xff\xfe\"\n", 0o644),
 	}
 }
 
@@ -1473,7 +1514,7 @@ func runC18(cfg Config, r *Result) {
 	r.Note("model protocol: %s (in-force = FmtCmd.write_atomically, main.go since c62275b: stat, fchmod before rename, temp file removed on errors)", chk.variant)
 
 	thorough := cfg.Tier == "thorough"
-	files := c18FixedFiles()
+	files := append(c18FixedFiles(), c18ByteVariants()...)
 	nFaultFiles := cfg.N(4, 30)
 	nCheckFault := cfg.N(1, 6)
 	nGen := cfg.N(6, 300)
@@ -1592,10 +1633,11 @@ func runC18(cfg Config, r *Result) {
 	words := c18Words("FUX", 2)
 	if thorough {
 		words = append(words, c18Words("FUX", 3)...)
+		words = append(words, c18Words("FC", 2)...)
 		for i := 0; i < 12; i++ {
 			w := make([]byte, 4)
 			for j := range w {
-				w[j] = "FUXT"[cfg.Rng.Intn(4)]
+				w[j] = "FUXTC"[cfg.Rng.Intn(5)]
 			}
 			words = append(words, string(w))
 		}
@@ -1604,7 +1646,7 @@ func runC18(cfg Config, r *Result) {
 		for i := 0; i < 4; i++ {
 			words = append(words, all3[cfg.Rng.Intn(len(all3))])
 		}
-		words = append(words, "UFF", "FUTX")
+		words = append(words, "UFF", "FUTX", "CF", "FC")
 	}
 	nMulti := 0
 	for _, w := range words {
@@ -1624,14 +1666,16 @@ func runC18(cfg Config, r *Result) {
 
 	// stdin mode (no strace: no file-system call is involved)
 	for _, in := range []struct{ label, src string }{{"formatted", "x := 1\nprint x\n"}, {"unformatted", "x:=1\nprint   x\n"},
-		{"unparsable", "x := \n"}, {"empty", ""}} {
+		{"unparsable", "x := \n"}, {"empty", ""}, {"crlf-all-lines", "x := 1\r\nprint x\r\n"}, {"crlf-last-line", "x := 1\nprint x\r\n"},
+		{"lone-cr", "x := 1\rprint x\n"}, {"trailing-nul", "x := 1\n\x00"}, {"utf8-bom", "\xef\xbb\xbfx := 1\n"},
+		{"only-whitespace", " \n\t\n "}, {"no-final-newline", "x := 1"}} {
 		for _, cmdName := range []string{"check", "plain", "write"} {
 			in, cmdName := in, cmdName
 			submit(func() { chk.checkStdin(env, cmdName, []byte(in.src), in.label) })
 		}
 	}
 
-	nFixed := len(c18FixedFiles())
+	nFixed := len(c18FixedFiles()) + len(c18ByteVariants())
 	for fi, f := range files {
 		f := f
 		o := c18OracleFor(f)
@@ -1696,6 +1740,15 @@ func c18Replay(cfg Config, env *c18Env, chk *c18Checker) {
 	b, err := os.ReadFile(cfg.Replay)
 	if err != nil {
 		chk.r.Violate(Violation{Kind: "correspondence", Key: "replay-read", Detail: err.Error()})
+		return
+	}
+	var sv struct {
+		Input struct {
+			Mode, Cmd, Stdin, Label string
+		} `json:"input"`
+	}
+	if json.Unmarshal(b, &sv) == nil && sv.Input.Mode == "stdin" {
+		chk.checkStdin(env, sv.Input.Cmd, []byte(sv.Input.Stdin), sv.Input.Label)
 		return
 	}
 	var v struct {
